@@ -30,9 +30,13 @@ AfterStart(B) ==
                  !.limbo = {B.ports[j] : j \in (FailsAt(B) + 1)..Len(B.ports)} \ (B.occupied \cup B.bound \cup B.closing)]
 \* start() cancelled (task cancellation, a timeout around it) after k binds: what it opened stays open until stop() - the
 \* clean-up of a failed start does not run for a cancellation - and the flag is untouched
+\* (k is what was OBSERVED to be listening afterwards: a bridge that cleans up after a cancellation as it does after a failure
+\* shows k = 0.  Ports the cancelled start may have opened and closed on the way are in limbo until the loop has cycled.)
 AfterCancelledStart(B, k) ==
-  LET n == IF FailsAt(B) = 0 THEN k ELSE IF k < FailsAt(B) THEN k ELSE FailsAt(B) - 1 IN
-  [B EXCEPT !.bound = @ \cup {B.ports[j] : j \in 1..(IF n > Len(B.ports) THEN Len(B.ports) ELSE n)}]
+  LET n == IF FailsAt(B) = 0 THEN k ELSE IF k < FailsAt(B) THEN k ELSE FailsAt(B) - 1
+      kept == {B.ports[j] : j \in 1..(IF n > Len(B.ports) THEN Len(B.ports) ELSE n)}
+  IN [B EXCEPT !.bound = @ \cup kept,
+               !.limbo = PortSet(B) \ (kept \cup B.occupied \cup B.bound \cup B.closing)]
 AfterStop(B) == [B EXCEPT !.closing = @ \cup B.bound, !.bound = {}, !.running = FALSE]
 AfterCycle(B) == [B EXCEPT !.closing = {}, !.limbo = {}]
 \* beyond the listed statements: an error the OS reports on a socket (ICMP port unreachable, ...) is logged and changes nothing
